@@ -217,6 +217,7 @@ impl Visitor<'_, '_> {
         let var_ty = self.check_var(var);
         let value_ty = self.check_expr_as_value(value, op.span);
         let (var_ty, value_ty) = (var_ty?, value_ty?);
+        self.require_assignable(var)?;
 
         match op.value {
             ast::AssignOpKind::Assign => {
@@ -228,6 +229,20 @@ impl Visitor<'_, '_> {
                 self.binop_check(sp!(op.span => binop), (var_ty, value_ty), (var.span, value.span))
             },
         }
+    }
+
+    /// A `const` (or enum const) is not storage; writing to one has no meaning (and lowering has no register for it).
+    fn require_assignable(&self, var: &Sp<ast::Var>) -> ImplResult {
+        if let ast::VarName::Normal { ident, .. } = &var.name {
+            let def_id = self.ctx.resolutions.expect_def(ident);
+            if self.ctx.defs.var_const_expr(def_id).is_some() {
+                return Err(self.emit(error!(
+                    message("cannot assign to a const"),
+                    primary(var, "this is a const"),
+                )));
+            }
+        }
+        Ok(())
     }
 
     fn check_stmt_expr(
@@ -248,6 +263,7 @@ impl Visitor<'_, '_> {
 
         if let Some(clobber) = clobber {
             let clobber_ty = self.check_var(clobber)?;
+            self.require_assignable(clobber)?;
             self.require_same((clobber_ty, count_ty), count.span, (clobber.span, count.span))?;
         }
         Ok(())
